@@ -74,12 +74,24 @@ def r03_2(ctx: Ctx):
             and isinstance(v.args[0], ast.Attribute)
             and v.args[0].attr == "problem"
         )
+        undecided = False
         if ok:
             # the wrapper must be a plain counting wrapper (always forwarding), not a refusing one
             wcls = ctx.prog.resolve_class_expr(v.func, f.module)
-            sums = evaluate_summaries(ctx, wcls)
+            try:
+                sums = evaluate_summaries(ctx, wcls)
+            except Inconclusive:
+                sums, undecided = [], True
             if not all(s.pair() == (1, 1) for s in sums):
                 ok = False
+                # the forwarding is decided by hook methods of the wrapper (a template method): which hook an instance of
+                # exactly this class runs is not resolved by the path summaries
+                ev = ctx.prog.lookup_method(wcls, "evaluate")
+                if ev is not None and any(isinstance(c_, ast.Call) and isinstance(c_.func, ast.Attribute) and isinstance(c_.func.value, ast.Name) and c_.func.value.id == ev.self_name() and c_.func.attr.startswith("_") for x_ in body_walk(ev.node) if isinstance(x_, (ast.If, ast.While, ast.IfExp)) for c_ in ast.walk(x_.test)):
+                    undecided = True
+        if undecided and not ok:
+            obs.append(ctx.ob("R03.2", f, n, status=INCONCLUSIVE, detail=f"the deme's counting wrapper `{norm(v.func)}` decides through hook methods whether it forwards: not followed"))
+            continue
         obs.append(ctx.ob("R03.2", f, n, status=OK if ok else VIOLATION, detail="deme problem = EvalCountingProblem(config.problem), always forwarding" if ok else f"the deme's counting wrapper is (re)bound unexpectedly: {norm(n)}"))
     if not any(f is init for f, _ in stores):
         raise AnalysisError("AbstractDeme.__init__ no longer assigns self._problem")
@@ -503,6 +515,24 @@ def _nfev_exact(ctx, f, e, defs, param, present, level_problem_exprs):
     if not (isinstance(e, ast.Attribute) and e.attr == "n_evaluations"):
         return INCONCLUSIVE, "not a counter read"
     base = e.value
+    # the counter's owner chosen by an isinstance test on a problem object: decide the test on the abstract wrapper stack
+    hops = 0
+    while isinstance(base, ast.IfExp) and hops < 3:
+        t = base.test
+        neg = False
+        while isinstance(t, ast.UnaryOp) and isinstance(t.op, ast.Not):
+            t, neg = t.operand, not neg
+        if not (isinstance(t, ast.Call) and norm(t.func) == "isinstance" and len(t.args) == 2):
+            break
+        st0 = _stack_of(ctx, f, t.args[0], defs, param, present)
+        clss = [t.args[1]] if not isinstance(t.args[1], ast.Tuple) else list(t.args[1].elts)
+        want = [ctx.prog.resolve_class_expr(c_, f.module) for c_ in clss]
+        if st0 is None or any(w is None for w in want):
+            return INCONCLUSIVE, f"cannot decide `{norm(base.test)}` under this assumption"
+        top = ctx.prog.cls("FunctionProblem" if st0[0] == "F" else st0[0])
+        truth = any(top is w or ctx.prog.is_subclass(top, w) for w in want) != neg
+        base = base.body if truth else base.orelse
+        hops += 1
     bt = ctx.res.type_of(base, f)
     is_tree = bt is not None and any(t[0] == "inst" and t[1].endswith(".DemeTree") for t in ([bt] if bt[0] != "union" else bt[1]))
     if is_tree:
